@@ -104,9 +104,16 @@ func wfProto(p *FunctionProto) string {
 			if !reg(a) || !ks(b) || !rk(c) {
 				bad = "SETTABLEKS operand (B must name a string constant)"
 			}
-		case OP_NEWTABLE, OP_CLOSE:
+		case OP_NEWTABLE:
 			if !reg(a) {
 				bad = "register A"
+			}
+		case OP_CLOSE:
+			// A is a stack level ("close every open upvalue at or above R(A)"), not a slot that is read or
+			// written: closeUpvalues compares indices only.  A == NumUsedRegisters is what a goto to a label
+			// with every register active compiles to (`local a, b; goto l; ::l::`), and closes nothing.
+			if a < 0 || a > nreg {
+				bad = "CLOSE level above the frame"
 			}
 		case OP_SELF:
 			if !reg(a) || !reg(a+1) || !reg(b) || !rk(c) {
